@@ -270,6 +270,7 @@ def h_grown_usable(nc_sel: int, na_sel: int, how: int) -> bool:
     nc, na = pick(nc_sel, 3), pick(na_sel, 4)
     e = _content_ens(nc, na)
     c0, q0, w0 = e.coords.copy(), e.atomic_charges.copy(), e.weights.copy()
+    old_views = [e[k] for k in range(nc)]          # conformer views taken before the growth: they stay views of their rows afterwards
     newc = real_np.full((na, 3), 0.5)
     newq = real_np.full((na,), 0.25)
     m = Molecule([Atom("C") for _ in range(na)], coords=newc, atomic_charges=newq)
@@ -308,6 +309,15 @@ def h_grown_usable(nc_sel: int, na_sel: int, how: int) -> bool:
             return False
     for cf in e:
         if len(cf.dumps_mol2()) == 0 or len(cf.dumps_xyz()) == 0:
+            return False
+    for k, cf in enumerate(old_views):
+        if not (real_np.array_equal(cf.coords, e.coords[k]) and real_np.array_equal(cf.atomic_charges, e.atomic_charges[k])):
+            return False
+        cf.coords[0, 2] = 42.0 + k                         # a write through the old view arrives in the grown ensemble
+        if e.coords[k, 0, 2] != 42.0 + k or e[k].coords[0, 2] != 42.0 + k:
+            return False
+        e.coords[k, 0, 2] = c0[k, 0, 2]
+        if cf.coords[0, 2] != c0[k, 0, 2]:
             return False
     if len(e.dumps_mol2()) == 0 or len(e.dumps_xyz()) == 0:
         return False
